@@ -80,6 +80,7 @@ pub fn eval(p: &Prog) -> (String, Option<String>, bool, u64) {
         PG::Conda(cs) => (cs.clone(), 0),
         PG::Condu(cs) => (cs.clone(), 1),
         PG::Onceo(gs) => (vec![vec![PG::Conj(gs.clone())]], 2),
+        PG::OnceoC(cs) => (vec![vec![PG::Conj(cs.iter().flat_map(|c| c.iter().cloned()).collect())]], 2),
         _ => return (line, None, false, fuel),
     };
     let mut fail = None;
@@ -242,7 +243,26 @@ pub fn run(seed: u64, thorough: bool, out: &mut Out) {
                 if r.chance(1, 3) {
                     gs.push(g.goal(&mut r, 1));
                 }
-                PG::Onceo(gs)
+                if r.chance(1, 2) {
+                    // several comma-separated entries whose order matters for the first answer: the entries share variables
+                    // and have several answers each (seeded change C08-k: the entries conjoined in reverse)
+                    let x = T::Var(r.below(nv));
+                    let y = T::Var(r.below(nv));
+                    let two = |a: isize, b: isize| PG::Conde(vec![vec![PG::Eq(x.clone(), T::Num(a))], vec![PG::Eq(x.clone(), T::Num(b))]]);
+                    let pairs = PG::Conde(vec![
+                        vec![PG::Eq(x.clone(), T::Num(2)), PG::Eq(y.clone(), T::Num(1))],
+                        vec![PG::Eq(x.clone(), T::Num(1)), PG::Eq(y.clone(), T::Num(2))],
+                    ]);
+                    let mut cs: Vec<Vec<PG>> = vec![vec![two(1, 2)], vec![pairs]];
+                    if r.chance(1, 2) {
+                        cs.push(gs);
+                    } else {
+                        cs.insert(0, gs);
+                    }
+                    PG::OnceoC(cs)
+                } else {
+                    PG::Onceo(gs)
+                }
             }
         };
         out.stat(["conda", "condu", "onceo"][kind]);
